@@ -45,7 +45,14 @@ VOCAB = [
     ("B", "sym", [("oo", "vv"), ("o", "v"), ("ov", "ov")], (0, 1, -1)),
     ("D", "sym", [("oo", "vv"), ("o", "v")], (-1,)),
     ("X", "amp", [("v", "o"), ("vv", "oo")], (0,)),
-    ("Y", "amp", [("v", "o"), ("vv", "oo")], (0,)),
+    # amplitude vectors of the non-number-conserving variants: unequal
+    # numbers of upper and lower indices
+    ("Y", "amp", [("v", "o"), ("vv", "oo"), ("v", "oo"), ("vv", "o")], (0,)),
+    # bra-ket (anti)symmetric tensors in diagonal blocks (bra and ket in the
+    # same space): the canonical bra/ket orientation depends on the names
+    ("K", "anti", [("o", "o"), ("v", "v"), ("oo", "oo"), ("vv", "vv")],
+     (-1, 1)),
+    ("L", "sym", [("o", "o"), ("oo", "oo"), ("vv", "vv")], (-1, 1)),
     ("n", "nonsym", [("ov", ""), ("oov", ""), ("o", ""), ("vv", "")], (0,)),
     ("e", "nonsym", [("o", ""), ("v", "")], (0,)),
 ]
